@@ -51,3 +51,9 @@ package pbuffer
 // no mutable package-level state (C12, and every property whose plan touches this package)
 //@ property C12
 //@ globals immutable
+
+// every type with exported methods declares its method set (a type or an exported method added
+// later - something other code can reach through an interface - is reported until it is under contract)
+//@ property C12 C14
+//@ types covered
+//@ methods Pool: Get Put
